@@ -222,7 +222,7 @@ func (w *World) trackSpread() {
 }
 
 func (w *World) observe() {
-	if w.prof == "churn" {
+	if w.isChurn() {
 		w.trackSpread()
 	}
 	for _, e := range w.S.Errors {
@@ -278,8 +278,11 @@ func (w *World) leaderSeen(term, id uint64, how string) {
 	}
 }
 
+// isChurn: the profile changes the membership while it runs
+func (w *World) isChurn() bool { return w.prof == "churn" || w.prof == "snapmember" }
+
 func (w *World) membershipTag() string {
-	if w.prof == "churn" {
+	if w.isChurn() {
 		return "changing"
 	}
 	// a single voter together with non-voting members
@@ -481,7 +484,7 @@ func (w *World) checkAckDurability(seen map[int]bool) {
 			continue
 		}
 		seen[op.ID] = true
-		if w.prof == "churn" {
+		if w.isChurn() {
 			continue
 		}
 		holders := 0
@@ -517,6 +520,7 @@ type profile struct {
 	snapEvery, pad                                                 int
 	bounded                                                        time.Duration
 	longDelays                                                     bool
+	safeMember                                                     bool // membership actions only toggle the one spare node
 }
 
 var profiles = map[string]profile{
@@ -526,6 +530,10 @@ var profiles = map[string]profile{
 	"churn":  {name: "churn", pDeliver: 52, pHold: 5, pFail: 5, pDup: 2, pTime: 16, pWrite: 8, pLin: 1, pPartition: 3, pCrash: 1, pMember: 8},
 	"snap":   {name: "snap", pDeliver: 55, pHold: 5, pFail: 5, pDup: 3, pTime: 14, pWrite: 14, pPartition: 2, pCrash: 2, snapEvery: 5},
 	"crash":  {name: "crash", pDeliver: 50, pHold: 4, pFail: 5, pDup: 2, pTime: 16, pWrite: 12, pPartition: 2, pCrash: 9, snapEvery: 7},
+	// snapshots together with membership changes that stay quorum-compatible: one spare node is added
+	// (non-voting or voting), promoted, demoted, removed; any two configurations this reaches differ by at
+	// most one voter (C09_quorums_of_adjacent_configurations_intersect), so S3/S4 are out of reach
+	"snapmember": {name: "snapmember", pDeliver: 52, pHold: 5, pFail: 5, pDup: 2, pTime: 14, pWrite: 12, pPartition: 2, pCrash: 2, pMember: 6, snapEvery: 5, safeMember: true},
 }
 
 func runWalk(t *testing.T, rep *Report, prof profile, seed uint64, walk int, actions int) {
@@ -787,6 +795,24 @@ func runWalk(t *testing.T, rep *Report, prof profile, seed uint64, walk int, act
 				if lead == 0 {
 					lead = w.pickNode()
 				}
+				if prof.safeMember {
+					if w.S.Nodes[spare] == nil && w.crashed[spare] == "" {
+						if _, err := s.Boot(spare, "", 0, nil); err == nil {
+							s.Start(spare)
+						}
+					}
+					switch rng.Intn(3) {
+					case 0:
+						w.submit("add", lead, spare, false)
+						w.members[spare] = true
+					case 1:
+						w.submit("add", lead, spare, true)
+						w.members[spare] = true
+					default:
+						w.submit("remove", lead, spare, false)
+					}
+					break
+				}
 				switch rng.Intn(4) {
 				case 0:
 					if !w.members[spare] && w.S.Nodes[spare] == nil && w.crashed[spare] == "" && spare <= uint64(nn+2) {
@@ -954,7 +980,7 @@ func (w *World) restart(id uint64, img string) (err error) {
 // on the configuration and a majority of its voters is running (the walk may have added a
 // voter that never existed, or removed the nodes that hold the log).
 func (w *World) settled() bool {
-	if w.prof != "churn" {
+	if !w.isChurn() {
 		return true
 	}
 	var ref string
